@@ -25,6 +25,7 @@ type TuCase struct {
 	Msgs   []TuMsg `json:"msgs"`
 	Closer int     `json:"closer"` // 0 = client closes at the end, 1 = backend closes
 	Idle   int     `json:"idle"`   // milliseconds of silence in the middle of the session
+	Browser bool   `json:"browser,omitempty"` // the handshake carries what a browser sends along (Accept-Encoding, Origin, extensions, ...)
 }
 
 func tuBytes(seq, n int) []byte {
@@ -110,6 +111,9 @@ func runTuGroup(cfg WiCfg, cases []TuCase, gidx int, emit func(c TuCase, coq str
 				req += "X-API-Key: " + p.Key + "\r\n"
 			}
 		}
+		if c.Browser {
+			req += "Origin: http://tunnel.local\r\nUser-Agent: Mozilla/5.0\r\nAccept-Encoding: gzip, deflate, br\r\nAccept-Language: en\r\nSec-WebSocket-Extensions: permessage-deflate; client_max_window_bits\r\nCache-Control: no-cache\r\nPragma: no-cache\r\n"
+		}
 		conn.Write([]byte(req + "\r\n"))
 		br := bufio.NewReader(conn)
 		status := 0
@@ -191,7 +195,7 @@ func runTuGroup(cfg WiCfg, cases []TuCase, gidx int, emit func(c TuCase, coq str
 }
 
 func genTuCase(g *Rng, cfg WiCfg) TuCase {
-	c := TuCase{Cfg: cfg, Closer: g.Intn(2)}
+	c := TuCase{Cfg: cfg, Closer: g.Intn(2), Browser: g.Chance(50)}
 	n := g.Range(0, 8)
 	for i := 0; i < n; i++ {
 		c.Msgs = append(c.Msgs, TuMsg{Dir: g.Intn(2), N: []int{1, 2, 125, 126, 1000, 4096, 65536, 100000}[g.Intn(8)]})
@@ -235,6 +239,12 @@ func TestTunnel(t *testing.T) {
 			cfg.Limit, cfg.Passive, cfg.NBack = false, false, 1
 			if len(cfg.Chain) > 3 {
 				cfg.Chain = cfg.Chain[:3]
+			}
+			if j%4 == 1 && !hasPlug(cfg, "gzip") { // every response-wrapping plugin takes part in some group
+				cfg.Chain = append(cfg.Chain, WiPlug{Name: "gzip"})
+			}
+			if j%4 == 3 && !hasPlug(cfg, "size_limit") {
+				cfg.Chain = append([]WiPlug{{Name: "size_limit", MaxReq: 200000, MaxResp: 400000}}, cfg.Chain...)
 			}
 			var cases []TuCase
 			for k := 0; k < per; k++ {
